@@ -384,21 +384,12 @@ let run ~tier ~seed ~only acc =
     let table_json () = JO [ "source", JS "real writer"; "cfg", cfg_json c; "entries", entries_json es ] in
     (match Wr.run_impl c es path with
      | Exited (_, s) when String.length s > 8 ->
+       (* the table is read in place: a foreign prefix stays in front of it (offsets in the file are absolute) *)
        let file = read_file path in
-       let pfx = Int64.to_int c.prefix in
-       (* the table follows the foreign prefix: the reader API opens whole files, so re-home the table *)
-       let file = if pfx > 0 then String.sub file pfx (String.length file - pfx) else file in
-       if pfx > 0 then begin
-         (* offsets inside are absolute: only usable in place; read in place through a copy without prefix is invalid,
-            so for prefixed files we only run full iteration through mtbl_dump on the original (it fails to open: index offset check) *)
-         ()
-       end;
-       if pfx = 0 then begin
-         write_file path file;
-         (match with_child_acc acc (fun a -> check_table a st ~props:"[C01,C02,C03]" ~klass ~table_json ~path ~file ~es ~with_dump:(rint st 3 = 0) ~tier) with
-          | None -> ()
-          | Some sg -> fail acc ~kind:"spec_violation" ~what:(Printf.sprintf "[C01,C02,C03] the reader stopped (signal %d) while iterating / querying a table written by the writer" sg) (table_json ()))
-       end
+       if Int64.compare c.prefix 0L > 0 then bump acc "tables_with_foreign_prefix";
+       (match with_child_acc acc (fun a -> check_table a st ~props:"[C01,C02,C03]" ~klass ~table_json ~path ~file ~es ~with_dump:(rint st 3 = 0) ~tier) with
+        | None -> ()
+        | Some sg -> fail acc ~kind:"spec_violation" ~what:(Printf.sprintf "[C01,C02,C03] the reader stopped (signal %d) while iterating / querying a table written by the writer" sg) (table_json ()))
      | _ -> fail acc ~kind:"model_mismatch" ~what:"[C01] writer run failed" (table_json ()));
     (try Sys.remove path with _ -> ()) in
   let base = { comp = 0; level = None; block_size = Some 1024; interval = None; pool = 0; prefix = 0L } in
@@ -422,7 +413,7 @@ let run ~tier ~seed ~only acc =
   for _ = 1 to n do
     if want () then begin
       let st = case_rng ~seed ~engine ~index:!idx in
-      let c = { (rcfg st ~allow_pool:false) with prefix = 0L } in
+      let c = { (rcfg st ~allow_pool:false) with prefix = (if rint st 4 = 0 then Int64.of_int (rrange st 1 300) else 0L) } in
       (match rint st 3 with
        | 0 -> from_writer st ~klass:"writer_sorted_family" c (rentries_sorted st ~big:(rint st 8 = 0) ~maxn:40)
        | _ -> from_writer st ~klass:"writer_multi_block" c (rentries_blocks st ~nkeys:(rrange st 3 60) ~vlen:(rrange st 0 400)))
